@@ -353,6 +353,7 @@ func runCase(c *Case) (nontrivial int, err error) {
 	defer func() { srv.Stop(inst) }()
 	if c.HtRotate {
 		writeHtpasswd(false)
+		srv.Settle(inst)
 		ni, e := inst.Restart(input)
 		if e != nil {
 			return 0, fmt.Errorf("reloading the same configuration after the htpasswd file was replaced failed: %v", e)
